@@ -33,7 +33,8 @@ THEOREMS = [
     "BeyondVerif.C08.boundVal_bind",
     "BeyondVerif.C08.exec_inv",
     "BeyondVerif.C08.call_result_pure",
-    "BeyondVerif.C08.propagate_pure",
+    "BeyondVerif.C08.propagate_pure_partial",
+    "BeyondVerif.C08.propagate_pure_not_sgp4",
     "BeyondVerif.C08.iter_eq_map_propagate",
     "BeyondVerif.C08.ident_table_matches",
     "BeyondVerif.C08.order_matches",
@@ -52,6 +53,8 @@ THEOREMS = [
     "BeyondVerif.C08W.ephem_empty_list_yields_nothing",
     "BeyondVerif.C08W.analytical_empty_list_yields_nothing",
     "BeyondVerif.C08W.sgp4_follows_modify",
+    "BeyondVerif.C08W.sgp4_stale_after_drag_change",
+    "BeyondVerif.C08W.sgp4_drag_change_seen_after_element_change",
     "BeyondVerif.C08W.kepler_follows_modify",
 ]
 LEVEL_TEXT = ("Lean theorems over an integer-microsecond model of Date.range, AnalyticalPropagator.iter, NumericalPropagator.iter + KeplerNum._iter, "
@@ -62,15 +65,18 @@ LEVEL_TEXT = ("Lean theorems over an integer-microsecond model of Date.range, An
               "(any span however short, stop on or off the integration grid), ephem_iter_dates_forward/backward (start, stop inside the tabulated span), by "
               "induction over the loops; explicit lists are yielded as given, the empty list yields nothing (iter_dates_list, numerical_iter_dates_list, "
               "ephem_iter_dates_list); error kinds of the argument handling; for EVERY history of propagate/iter calls and in-place modifications of the orbits on "
-              "shared propagator and listener objects, every propagator kind, the result of the next call equals that on fresh objects holding the current orbit "
-              "values (propagate_pure, by an invariant over histories; no exception for Sgp4 any more). Kernel-decided regression witnesses on the inputs of the "
-              "8 repaired findings. Model tied to the code by an exact differential correspondence (dates, error kinds, binding trace, whose trajectory, events, "
+              "shared propagator and listener objects the result of the next call equals that on fresh objects holding the current orbit values: at full strength "
+              "for Kepler, J2, None, KeplerNum, CW, Ephem (propagate_pure_not_sgp4), and for Sgp4 under the hypothesis that what Sgp4 compares of its orbit "
+              "(coordinates, date, form, frame) determines the orbit (propagate_pure_partial: in-place changes of the coordinates are covered since c604b3e; "
+              "an in-place change of a drag term bstar/ndot/ndotdot is NOT - kernel-decided counter-witness, open finding). Kernel-decided regression witnesses "
+              "on the inputs of the 8 repaired findings. Model tied to the code by an exact differential correspondence (dates, error kinds, binding trace, whose trajectory, events, "
               "Listener.prev) on every run and by constants / setter kinds regenerated from the source.")
 LEVEL_NOTE = ("model hand-written (control flow), tied by exact correspondence; dates are exact integers in the model while Date carries float seconds "
               "(inputs on a 0.125 s grid where the float arithmetic is exact; date arithmetic itself is C03's); yielded STATES are abstract in the model "
               "(f(orbit value, date)) and compared on the real API by the oracle only; the numerical theorems take as a parameter any number m of integration steps "
-              "that reach stop and fill the interpolation order and assume fuel > m (fuel bounds the model's loops only; the code has no bound); no clause of the "
-              "property is known to be false of the current code (8 findings fixed in /repo, kept as regression families); "
+              "that reach stop and fill the interpolation order and assume fuel > m (fuel bounds the model's loops only; the code has no bound); 8 findings fixed in "
+              "/repo are kept as regression families; 1 clause is false of the current code (history independence under Sgp4 after orb.bstar = x: open finding "
+              "C08-sgp4-stale-after-drag-term-change, proposed_fixes/C08-h-sgp4-drag-terms.diff); "
               "Lean kernel + propext/Classical.choice/Quot.sound")
 TECHNIQUE = "Lean 4 proof by induction over the iteration loops and over call histories + kernel decide regression witnesses; exact model/implementation correspondence"
 TRUSTED = [
@@ -84,7 +90,7 @@ ASSUMPTIONS = [
     "KeplerNum with a fixed-step method (rk4/euler) and self.step > 0: real_step == self.step; adaptive methods change the internal grid and are not modelled; `real_steps=True` is not modelled",
     "Ephem(points) sorts by date: modelled as the reversal of the (descending) list a backward integration produces",
     "the positioning of KeplerNum at `start` (extrapolation / retropolation from the epoch padded to DEFAULT_ORDER points, one interpolation) always succeeds and only its date enters the model",
-    "Sgp4 compares (tobytes, date, form, frame) of the bound orbit with what its record was computed from: modelled as equality of the abstract orbit value",
+    "Sgp4 compares (tobytes, date, form, frame) of the bound orbit with what its record was computed from: modelled as a relation World.sameState on abstract orbit values (in the correspondence: same object and same number of element changes, whatever the number of drag-term changes)",
     "a call is atomic: a suspended generator is either dropped or never resumed after another call on the same objects",
     "in-place modifications of an orbit by the user happen between calls (modelled as the call `modify`), not while an iterator is suspended",
 ]
@@ -96,18 +102,20 @@ NOT_COVERED = [
     "inputs outside the quantifier, modelled and in the correspondence but without theorem: a forward range with a negative step (analytical: ValueError at once, iter_incoherent; Ephem and KeplerNum: dates until the span is left, then ValueError); step = 0 (analytical: ValueError; Ephem / KeplerNum forward: never terminates, both sides stop at the cap; KeplerNum backward: ValueError); KeplerNum.iter(start=None): AttributeError",
     "event search (_bisect) is C10's; listeners enter here only through clear_listeners / Listener.prev / the number of events found per call",
 ]
-OPEN = ["ownPts / ownPtsBack (Ephem.iter without step) are proved equal to the code's loops by definition only; their characterisation as 'the tabulated dates within [start, stop]' for sorted points is proved for integration grids only (Lemmas/Iter.lean ownPts_grid, used by numerical_iter_dates_forward)",
+OPEN = ["propagate_pure for Sgp4 is _partial: it assumes Faithful (Sgp4._state determines the orbit value). The excluded case - a drag term (bstar, ndot, ndotdot) changed in place after a first propagation - is a genuine failure of the current code (Witness sgp4_stale_after_drag_change, known finding C08-sgp4-stale-after-drag-term-change, proposed_fixes/C08-h-sgp4-drag-terms.diff); after that fix sameState becomes equality and the hypothesis disappears",
+        "ownPts / ownPtsBack (Ephem.iter without step) are proved equal to the code's loops by definition only; their characterisation as 'the tabulated dates within [start, stop]' for sorted points is proved for integration grids only (Lemmas/Iter.lean ownPts_grid, used by numerical_iter_dates_forward)",
         "Ephem.iter with start or stop outside the tabulated span (strict: ValueError; strict=False: clamped, forward and backward): modelled and in the correspondence, no theorem",
         "Dates given as a DateRange object (all three families; for KeplerNum also backward DateRanges): modelled and in the correspondence, no theorem"]
 RULE = ("correspondence: per propagator kind (sgp4, kepler, j2, none, num, cw, ephem) random keyword combinations of iter (start absent/None/before/at/after epoch, "
         "stop date/timedelta/absent, step absent/None/positive/negative/zero, dates list (empty, unordered, repeated) / DateRange (both directions), strict, backward "
         "ranges inside and outside an ephemeris span) and random histories of <= 8 propagate/iter calls on two "
         "orbits (every element different) sharing one propagator and two listeners that fire on a date pattern (full, partial, zero consumption; start/stop/step, explicit "
-        "dates and DateRange forms; in-place modifications of the orbits between calls), the trace compared being dates, end kind, bound orbit, number of re-bindings, "
+        "dates and DateRange forms; in-place modifications of the orbits between calls: their elements, for Sgp4 also their drag term B*), the trace compared being dates, end kind, bound orbit, number of re-bindings, "
         "number of events, Listener.prev and WHOSE trajectory (orbit object, number of modifications seen) the returned state lies on; non-trivial = >= 2 dates yielded "
         "resp. >= 2 calls; distinct = distinct request line. "
         "oracle: the contract list start + k*step on the real API for all 7 kinds both directions, yielded state == direct propagate from fresh objects, "
-        "explicit lists, histories vs fresh objects (bitwise), receiver snapshots")
+        "explicit lists, histories vs fresh objects (bitwise), receiver snapshots; first of all, on every seed, the directed histories of the findings this property "
+        "has had (propagate / modify / propagate, two orbits on one propagator, listeners re-used over explicit dates)")
 U = 125_000            # grid of the generated dates, in microseconds (0.125 s: exact in the float seconds of Date)
 FLIP = 700_000_000     # the correspondence's test listener changes sign every FLIP microseconds (Drv/C08.lean: flipPeriod)
 FLIP_OFFSET = 31_250   # ... at dates k*FLIP + FLIP_OFFSET, never on the 0.125 s grid of the generated dates (Drv/C08.lean: flipOffset)
@@ -222,10 +230,15 @@ class World:
     def date(self, us):
         return self.e + td(us)
 
-    def modify(self, idx):
-        """the user changes elements of an orbit object in place (size and phase of the orbit)"""
+    def modify(self, idx, meta=False):
+        """the user changes elements of an orbit object in place (size and phase of the orbit); meta: the drag term B*
+        (an attribute of the orbit next to its six coordinates; only Sgp4 uses it)"""
         o = self.orbits[idx]
-        if self.kind == "sgp4":          # TLE form: (i, Omega, e, omega, M, n)
+        if meta:
+            if self.kind != "sgp4":
+                raise ValueError("drag terms are modified for Sgp4 orbits only in this harness")
+            o.bstar = o.bstar * 1.5 + 2e-5
+        elif self.kind == "sgp4":        # TLE form: (i, Omega, e, omega, M, n)
             o[5] *= 1.0007
             o[4] += 0.25
         elif self.kind == "cw":
@@ -464,7 +477,7 @@ def real_iter_line(kind, h, npts, a, order):
 
 def enc_call(c):
     if c["op"] == "modify":
-        return f"M/{c['orb']}"
+        return f"{'B' if c.get('meta') else 'M'}/{c['orb']}"
     if c["op"] == "propagate":
         return f"P/{c['orb']}/{c['date']}"
     ls = c["args"].get("listeners") or []
@@ -500,10 +513,12 @@ def real_trace(kind, h, npts, calls):
     memo = {}
 
     def whose(state):
+        """every (orbit object, version) whose trajectory the state lies on (several when they coincide at that date)"""
         if kind == "ephem" or state is None:
             return "-"
         d = us_of(state.date, w.e)
         sc = np.array(state.copy(form="cartesian")) if kind != "cw" else np.array(state)
+        hits = []
         for j, vs in enumerate(vers):
             for k, v in enumerate(vs):
                 if (j, k, d) not in memo:
@@ -515,14 +530,14 @@ def real_trace(kind, h, npts, calls):
                 else:
                     same = np.array_equal(sc, ref)
                 if same:
-                    return f"{j}.{k}"
-        return "?"
+                    hits.append(f"{j}.{k}")
+        return "/".join(hits) if hits else "?"
 
     for c in calls:
         first = None
         w.n_events = 0
         if c["op"] == "modify":
-            w.modify(c["orb"])
+            w.modify(c["orb"], meta=bool(c.get("meta")))
             vers[c["orb"]].append(w.orbits[c["orb"]].copy())
             run = " done"
         elif c["op"] == "propagate":
@@ -550,12 +565,36 @@ def real_trace(kind, h, npts, calls):
     return " | ".join(outs)
 
 
+def same_trace(real, model):
+    """exact equality of the two traces, except that the implementation side names EVERY orbit version whose trajectory the
+    first returned state lies on (token v<obj>.<n>/<obj>.<n>/...) and the model names one: it has to be among them"""
+    if real == model:
+        return True
+    rc, mc = real.split(" | "), model.split(" | ")
+    if len(rc) != len(mc):
+        return False
+    for r, m in zip(rc, mc):
+        rt, mt = r.split(" "), m.split(" ")
+        if len(rt) != len(mt):
+            return False
+        for a, b in zip(rt, mt):
+            if a == b:
+                continue
+            if a.startswith("v") and b.startswith("v") and "/" in a and b[1:] in a[1:].split("/"):
+                continue
+            return False
+    return True
+
+
 def correspondence(ctx):
     out = Outcome()
     rng = ctx.rng
     order = order_of_source()
     cases = []
     for kind in KINDS:
+        # the histories of the findings this property has had, on every seed
+        for calls in directed_histories(kind, 60 * 8 * U, 12):
+            cases.append(("hist", kind, 60 * 8 * U, 12, calls, f"c08hist {kind} {CAP} {order} {60 * 8 * U} 12 2 " + " ".join(enc_call(c) for c in calls)))
         for _ in range(ctx.n(250, 6000)):
             h = rng.choice([60, 60, 30, 10]) * 8 * U
             npts = rng.choice([1, 3, 7, 8, 9, 12, 20]) if kind == "ephem" else 12
@@ -586,7 +625,7 @@ def correspondence(ctx):
             real = real_trace(kind, h, npts, x)
             out.count(key=line, nontrivial=len(x) > 1, kind=f"history-{kind}", calls=len(x))
             fam = f"model-history-{kind}"
-        if real != m:
+        if not (real == m if what == "iter" else same_trace(real, m)):
             out.fail(fam, "dates / error kind / binding trace differ between Model/Iter.lean and the code", {"line": line}, observed=real[:400], expected=m[:400])
         out.sample({"line": line[:200], "reply": m[:160]}, limit=4)
     return out
@@ -703,6 +742,8 @@ def gen_call(rng, kind, h, npts, n_orb, modify=True):
     ls = rng.choice([[], [], [0], [1], [0, 1]])
     r0 = rng.random()
     if modify and kind != "ephem" and r0 < 0.12:
+        if kind == "sgp4" and rng.random() < 0.4:
+            return {"op": "modify", "orb": idx, "meta": True}
         return {"op": "modify", "orb": idx}
     if r0 < 0.30:
         # explicit list of dates spread over an orbit (numerical propagator: a few integration steps around the epoch; also as a
@@ -742,7 +783,7 @@ def gen_call(rng, kind, h, npts, n_orb, modify=True):
 def do_call(w, c):
     """-> canonical observable result of one call"""
     if c["op"] == "modify":
-        w.modify(c["orb"])
+        w.modify(c["orb"], meta=bool(c.get("meta")))
         return ("modified",)
     if c["op"] == "propagate":
         try:
@@ -760,11 +801,14 @@ def check_history(out, kind, h, npts, calls):
     snap = w.snapshot()
     inp = {"check": "history", "kind": kind, "h": h, "npts": npts, "calls": calls}
     res = None
+    last_yield = {}      # orbit -> index of the last earlier call on it that returned at least one state
     for i, c in enumerate(calls):
         res = do_call(w, c)
         if c["op"] == "modify":
             snap = w.snapshot()
             continue
+        if i < len(calls) - 1 and (res[0] == "ok" or (res[0] == "iter" and len(res[2]) > 0)):
+            last_yield[c["orb"]] = i
         if w.snapshot() != snap:
             out.fail(f"{kind}-receiver-modified-by-{c['op']}", "a propagate/iter call modified the orbit (or the ephemeris points) it was called on",
                      dict(inp, at=i))
@@ -776,7 +820,7 @@ def check_history(out, kind, h, npts, calls):
     f = World(kind, h=h, npts=npts)
     for c in calls[:-1]:
         if c["op"] == "modify":
-            f.modify(c["orb"])
+            f.modify(c["orb"], meta=bool(c.get("meta")))
     ref = do_call(f, last)
     out.count(key=(kind, repr(calls)), nontrivial=len(calls) > 1, kind="history-" + kind, calls=len(calls), last=last["op"])
     if res != ref:
@@ -787,12 +831,18 @@ def check_history(out, kind, h, npts, calls):
             "dates" if (res[0] == "iter" and main_dates(res) != main_dates(ref)) or (res[0] == "ok" and res[1] != ref[1]) else (
                 "events" if res[0] == "iter" and [e for e in res[4] if e] != [e for e in ref[4] if e] else "state"))
         # family: propagator kind, kind of the last call, what differs, and whether the receiver of the last call had been
-        # modified in place by the user earlier in the history (a binding that is not refreshed) or not (a shared object
+        # modified in place by the user since the last call on it that returned a state (something derived from the orbit
+        # that is not refreshed: after a change of its coordinates / of its drag term only) or not (a shared object
         # carrying state from call to call)
-        changed = any(c["op"] == "modify" and c["orb"] == last["orb"] for c in calls[:-1])
-        if changed and what == "events":
+        mods = [c for c in calls[last_yield.get(last["orb"], -1) + 1:-1] if c["op"] == "modify" and c["orb"] == last["orb"]]
+        changed = any(not c.get("meta") for c in mods)
+        drag = (not changed) and any(c.get("meta") for c in mods)
+        if (changed or drag) and what == "events":
             what = "state"          # another trajectory has other events: one family with the states themselves
-        out.fail(f"{kind}-history-dependent-{what}-after-inplace-change" if changed else f"{kind}-history-dependent-{last['op']}-{what}",
+        fam = (f"{kind}-history-dependent-{what}-after-inplace-change" if changed else
+               f"{kind}-history-dependent-{what}-after-inplace-drag-term-change" if drag else
+               f"{kind}-history-dependent-{last['op']}-{what}")
+        out.fail(fam,
                  "the result of a call depends on earlier calls on the same objects",
                  inp, observed=_short(res), expected=_short(ref))
 
@@ -819,12 +869,42 @@ def check_dates_list(out, w, dates, npts, order):
                  {"check": "dates", "kind": w.kind, "h": w.h, "npts": npts, "dates": dates}, observed={"dates": got[:40], "end": fin}, expected={"dates": dates[:40], "end": "done"})
 
 
+def directed_histories(kind, h, npts):
+    """the histories of the findings this property has had (known_findings.d/C08.json), on every kind, run first on every seed"""
+    P = lambda o, d: {"op": "propagate", "orb": o, "date": d}                                    # noqa: E731
+    inside = (npts - 1) * h
+    d1, d2 = 3 * h + U, (2 * h if kind == "ephem" else -2 * h)
+    rng_args = {"start": 0, "stop": min(4 * h + U, inside), "step": h // 2 + U, "listeners": []}
+    out = []
+    if kind != "ephem":
+        out.append([P(0, d1), {"op": "modify", "orb": 0}, P(0, d2)])
+        out.append([P(0, d1), {"op": "modify", "orb": 0}, {"op": "iter", "orb": 0, "args": dict(rng_args), "consume": CAP}])
+        out.append([{"op": "iter", "orb": 0, "args": dict(rng_args), "consume": 2}, {"op": "modify", "orb": 0}, P(0, d2)])
+        out.append([P(0, d1), P(1, d2), P(0, d2)])
+        out.append([P(0, d1), {"op": "iter", "orb": 1, "args": dict(rng_args), "consume": 1}, P(0, d1)])
+    if kind == "sgp4":
+        out.append([P(0, d1), {"op": "modify", "orb": 0, "meta": True}, P(0, 30 * d1)])
+        out.append([P(0, d1), {"op": "modify", "orb": 0, "meta": True}, {"op": "iter", "orb": 0, "args": dict(rng_args, stop=40 * h), "consume": CAP}])
+    # the same listener objects over two successive iterations on explicit dates, a quarter / half / three quarters of a LEO
+    # revolution apart (the watched quantities have changed sign for at least one of them)
+    for q in ((3, 6, 9) if kind == "ephem" else (24, 48, 72)):
+        second = [min(q * h, inside), min(q * h + h, inside)] if kind == "ephem" else [q * h, q * h + h]
+        out.append([{"op": "iter", "orb": 0, "args": {"dates": [0, h], "listeners": [0, 1]}, "consume": CAP},
+                    {"op": "iter", "orb": 0, "args": {"dates": second, "listeners": [0, 1]}, "consume": CAP}])
+        out.append([{"op": "iter", "orb": 0, "args": {"start": 0, "stop": 2 * h, "step": h, "listeners": [0, 1]}, "consume": 2},
+                    {"op": "iter", "orb": 0, "args": {"dates": second, "listeners": [0, 1]}, "consume": CAP}])
+    return out
+
+
 def oracle(ctx, widened):
     out = Outcome()
     rng = ctx.rng
     big = widened or ctx.thorough
     order = order_of_source()
     n_iter = 1200 if big else 120
+    for kind in KINDS:
+        for calls in directed_histories(kind, 60 * 8 * U, 12):
+            check_history(out, kind, 60 * 8 * U, 12, calls)
     for kind in KINDS:
         for i in range(n_iter):
             h = rng.choice([60, 60, 30, 10]) * 8 * U
@@ -854,7 +934,7 @@ def oracle(ctx, widened):
                 ds = [rng.randrange(-hi, hi + 1) * U for _ in range(n)]
             check_dates_list(out, w, ds, npts, order)
         # call histories on shared objects
-        for i in range((600 if big else 60)):
+        for i in range((600 if big else 100)):
             h = 60 * 8 * U
             npts = rng.choice([9, 12])
             n_orb = 1 if kind == "ephem" else 2
